@@ -319,6 +319,269 @@ static void mode_ssrb(vh::Trace& tr, long runs, int stage, vh::Rng& rng, const s
   }
 }
 
+// ================================================================== zoom
+// Trace lines of the exact instances (mode zoom; one instance = ZIn, ZOut*):
+//   ZIn    lo hi [z,y,x] index range of the input image; P Q per axis (zoom = P/Q); oi: input origin, o: requested offsets, both in
+//          QUARTER input voxels; n: new sizes; opt 0 preserve_sum, 1 preserve_values, 2 preserve_projections; vals: the (integer) voxel
+//          values, z-major; cog: find_centre_of_gravity_in_mm of the input in units u = input voxel / (4P) per axis, times 2^8 (when sum > 0)
+//   ZOut   call: zoom3 | zoom3_inplace | into | axes | zoom2 | zoom2_inplace; err; lo hi of the result, org: its origin in units u (rounded),
+//          vox: its voxel sizes in units u (rounded), res: largest rounding residual of org/vox in 1e-6 units; vals: voxel values * 2^8
+//          (rounded); cog of the result (units u * 2^8) when sum > 0
+// Random instances (mode zoomr; RIn, ROut*): the same with lengths in mm * 2^10 (org, vox, off, cog), zooms * 2^16 (zf), voxel values * 2^8
+//   (inputs are dyadic: exact), ubox: index box [lo3, hi3] in which the input is the constant uval.
+typedef VoxelsOnCartesianGrid<float> Image;
+
+struct ZCase {
+  int lo[3], hi[3];          // input index range (z, y, x)
+  float vox[3], org[3];      // input voxel size / origin in mm
+  float zoom[3], off[3];     // requested zooms and offsets (mm)
+  int n[3];                  // new sizes
+  int opt;
+  bool two_d_ok;             // the parameters can be passed to the (zoom, x_offset, y_offset, new_size) overloads
+};
+
+static Image make_image(const ZCase& c) {
+  return Image(IndexRange3D(c.lo[0], c.hi[0], c.lo[1], c.hi[1], c.lo[2], c.hi[2]), CartesianCoordinate3D<float>(c.org[0], c.org[1], c.org[2]),
+               CartesianCoordinate3D<float>(c.vox[0], c.vox[1], c.vox[2]));
+}
+static ZoomOptions zopt(int o) { return ZoomOptions(o == 0 ? ZoomOptions::preserve_sum : o == 1 ? ZoomOptions::preserve_values : ZoomOptions::preserve_projections); }
+
+template <class F> static void for_voxels(const Image& im, F f) {
+  for (int z = im.get_min_z(); z <= im.get_max_z(); ++z)
+    for (int y = im[z].get_min_index(); y <= im[z].get_max_index(); ++y)
+      for (int x = im[z][y].get_min_index(); x <= im[z][y].get_max_index(); ++x) f(z, y, x);
+}
+
+// the calls under test; returns false when the variant does not apply
+static bool run_variant(const std::string& call, const ZCase& c, const Image& in, const Image* first, Image& res) {
+  const CartesianCoordinate3D<float> zooms(c.zoom[0], c.zoom[1], c.zoom[2]), offs(c.off[0], c.off[1], c.off[2]);
+  const BasicCoordinate<3, int> sizes = make_coordinate(c.n[0], c.n[1], c.n[2]);
+  const ZoomOptions o = zopt(c.opt);
+  if (call == "zoom3") res = zoom_image(in, zooms, offs, sizes, o);
+  else if (call == "zoom3_inplace") { res = in; zoom_image_in_place(res, zooms, offs, sizes, o); }
+  else if (call == "into") {
+    // two steps: an image with the geometry of the first result (filled with rubbish), then zoom_image(out, in)
+    if (!first) return false;
+    BasicCoordinate<3, int> mn, mx;
+    first->get_regular_range(mn, mx);
+    res = Image(IndexRange3D(mn[1], mx[1], mn[2], mx[2], mn[3], mx[3]), first->get_origin(), first->get_voxel_size());
+    res.fill(7.F);
+    zoom_image(res, in, o);
+  } else if (call == "axes") {
+    // one axis at a time: x, then y, then z
+    const int lz = in.get_z_size(), ly = in.get_y_size();
+    Image a = zoom_image(in, CartesianCoordinate3D<float>(1.F, 1.F, c.zoom[2]), CartesianCoordinate3D<float>(0.F, 0.F, c.off[2]), make_coordinate(lz, ly, c.n[2]), o);
+    Image b = zoom_image(a, CartesianCoordinate3D<float>(1.F, c.zoom[1], 1.F), CartesianCoordinate3D<float>(0.F, c.off[1], 0.F), make_coordinate(lz, c.n[1], c.n[2]), o);
+    res = zoom_image(b, CartesianCoordinate3D<float>(c.zoom[0], 1.F, 1.F), CartesianCoordinate3D<float>(c.off[0], 0.F, 0.F), sizes, o);
+  } else if (call == "zoom2") {
+    if (!c.two_d_ok) return false;
+    res = zoom_image(in, c.zoom[2], c.off[2], c.off[1], c.n[2], o);
+  } else if (call == "zoom2_inplace") {
+    if (!c.two_d_ok) return false;
+    res = in;
+    zoom_image_in_place(res, c.zoom[2], c.off[2], c.off[1], c.n[2], o);
+  } else
+    return false;
+  return true;
+}
+
+static const char* const CALLS[] = { "zoom3", "zoom3_inplace", "into", "axes", "zoom2", "zoom2_inplace" };
+
+// ---------------------------------------------------------------- exact instances
+static void mode_zoom(vh::Trace& tr, long runs, int stage, vh::Rng& rng) {
+  static const int PQ[7][2] = { { 1, 3 }, { 1, 2 }, { 2, 3 }, { 1, 1 }, { 3, 2 }, { 2, 1 }, { 3, 1 } };
+  for (long run = 0; run < runs; ++run) {
+    ZCase c;
+    int P[3], Q[3], oi[3], o[3];
+    const bool two_d = run % 3 == 0;                  // parameters of the transaxial-only overloads
+    for (int a = 0; a < 3; ++a) {
+      const int z = rng.range(0, 6);
+      P[a] = PQ[z][0]; Q[a] = PQ[z][1];
+    }
+    if (two_d) { P[0] = Q[0] = 1; P[1] = P[2]; Q[1] = Q[2]; }
+    const int maxn = stage ? 6 : 5;
+    for (int a = 0; a < 3; ++a) {
+      const int len = a == 0 ? rng.range(1, stage ? 4 : 3) : rng.range(2, maxn);
+      // standard index ranges (z from 0, y and x from -(len/2)), sometimes shifted (not for the transaxial-only overloads)
+      c.lo[a] = a == 0 ? 0 : -(len / 2);
+      if (!two_d && rng.range(0, 3) == 0) c.lo[a] += rng.range(-2, 2);
+      c.hi[a] = c.lo[a] + len - 1;
+      // voxel sizes for which input voxel / (4P) and output voxel are dyadic
+      static const float V3[4] = { 3.F, 1.5F, 6.F, 0.75F }, V12[5] = { 1.F, 2.F, 4.F, 0.5F, 3.F };
+      c.vox[a] = P[a] == 3 ? V3[rng.range(0, 3)] : V12[rng.range(0, 4)];
+      oi[a] = rng.range(0, 2) == 0 ? 0 : rng.range(-6, 6);
+      o[a] = rng.range(0, 3) == 0 ? 0 : rng.range(-6, 6);
+      c.zoom[a] = (float)P[a] / (float)Q[a];
+      // new size: about the size that represents the same amount of data, sometimes less (truncation) or more (zero filling)
+      const int same = (len * P[a] + Q[a] - 1) / Q[a];
+      c.n[a] = std::max(1, same + rng.pick(std::vector<int>{ 0, 0, 1, 2, 3, -1, -2 }));
+    }
+    if (two_d) {
+      c.vox[1] = c.vox[2]; c.hi[1] = c.lo[1] + (c.hi[2] - c.lo[2]); c.lo[1] = c.lo[2]; c.hi[1] = c.hi[2];
+      o[0] = 0; c.n[0] = 1; c.n[1] = c.n[2];
+      c.n[0] = c.hi[0] - c.lo[0] + 1;
+    }
+    for (int a = 0; a < 3; ++a) { c.org[a] = oi[a] * c.vox[a] / 4.F; c.off[a] = o[a] * c.vox[a] / 4.F; }
+    c.opt = rng.range(0, 2);
+    c.two_d_ok = two_d;
+    Image in = make_image(c);
+    std::vector<long long> vals;
+    const int kind = rng.range(0, 3);                 // 0: dense, 1: sparse, 2: constant, 3: constant box in zeros
+    const int cv = rng.range(1, 15);
+    for_voxels(in, [&](int z, int y, int x) {
+      int v = 0;
+      if (kind == 0) v = rng.range(0, 15);
+      else if (kind == 1) v = rng.range(0, 3) == 0 ? rng.range(1, 15) : 0;
+      else if (kind == 2) v = cv;
+      else v = (y > c.lo[1] && y < c.hi[1] && x > c.lo[2] && x < c.hi[2]) ? cv : 0;
+      in[z][y][x] = (float)v;
+      vals.push_back(v);
+    });
+    double u[3];
+    for (int a = 0; a < 3; ++a) u[a] = (double)c.vox[a] / (4. * P[a]);
+    {
+      vh::Json j("ZIn");
+      j.num("id", run + 1).arr("lo", std::vector<int>(c.lo, c.lo + 3)).arr("hi", std::vector<int>(c.hi, c.hi + 3)).arr("P", std::vector<int>(P, P + 3))
+          .arr("Q", std::vector<int>(Q, Q + 3)).arr("oi", std::vector<int>(oi, oi + 3)).arr("o", std::vector<int>(o, o + 3))
+          .arr("n", std::vector<int>(c.n, c.n + 3)).num("opt", c.opt).boolean("twoD", two_d).arr("vals", vals);
+      const bool pos = in.sum() > 0.F;
+      j.boolean("pos", pos);
+      if (pos) {
+        const CartesianCoordinate3D<float> g = find_centre_of_gravity_in_mm(in);
+        j.arr("cog", std::vector<long long>{ vh::fx(g.z() / u[0], 8), vh::fx(g.y() / u[1], 8), vh::fx(g.x() / u[2], 8) });
+      }
+      tr.emit(j);
+    }
+    Image first;
+    bool have_first = false;
+    for (const char* call : CALLS) {
+      Image res;
+      bool applies = true;
+      std::string msg;
+      const bool err = vh::threw([&] { applies = run_variant(call, c, in, have_first ? &first : nullptr, res); }, &msg);
+      if (!applies) continue;
+      vh::Json j("ZOut");
+      j.str("call", call).boolean("err", err);
+      if (err) { j.str("msg", msg); tr.emit(j); continue; }
+      if (!have_first) { first = res; have_first = true; }
+      BasicCoordinate<3, int> mn, mx;
+      res.get_regular_range(mn, mx);
+      long long res6 = 0;
+      std::vector<long long> org, vox;
+      for (int a = 0; a < 3; ++a) {
+        const double q1 = res.get_origin()[a + 1] / u[a], q2 = res.get_voxel_size()[a + 1] / u[a];
+        org.push_back(std::llround(q1)); vox.push_back(std::llround(q2));
+        res6 = std::max(res6, (long long)std::llround(std::max(std::fabs(q1 - std::llround(q1)), std::fabs(q2 - std::llround(q2))) * 1e6));
+      }
+      std::vector<long long> ov;
+      for_voxels(res, [&](int z, int y, int x) { ov.push_back(vh::fx(res[z][y][x], 8)); });
+      j.arr("lo", std::vector<int>{ mn[1], mn[2], mn[3] }).arr("hi", std::vector<int>{ mx[1], mx[2], mx[3] }).arr("org", org).arr("vox", vox).num("res", res6)
+          .arr("vals", ov);
+      const bool pos = res.sum() > 0.F;
+      j.boolean("pos", pos);
+      if (pos) {
+        const CartesianCoordinate3D<float> g = find_centre_of_gravity_in_mm(res);
+        j.arr("cog", std::vector<long long>{ vh::fx(g.z() / u[0], 8), vh::fx(g.y() / u[1], 8), vh::fx(g.x() / u[2], 8) });
+      }
+      tr.emit(j);
+    }
+  }
+}
+
+// ---------------------------------------------------------------- random dyadic images, zooms in [0.3, 3]
+static void mode_zoomr(vh::Trace& tr, long runs, int stage, vh::Rng& rng) {
+  for (long run = 0; run < runs; ++run) {
+    ZCase c;
+    const bool two_d = run % 3 == 0;
+    int ulo[3], uhi[3];
+    for (int a = 0; a < 3; ++a) {
+      const int len = a == 0 ? rng.range(1, stage ? 5 : 4) : rng.range(3, stage ? 9 : 7);
+      c.lo[a] = a == 0 ? 0 : -(len / 2);
+      if (!two_d && rng.range(0, 3) == 0) c.lo[a] += rng.range(-2, 2);
+      c.hi[a] = c.lo[a] + len - 1;
+      c.vox[a] = rng.range(4, 16) / 4.F;                                   // 1 .. 4 mm in steps of 1/4
+      c.org[a] = rng.range(0, 2) == 0 ? 0.F : rng.range(-40, 40) / 8.F;
+      // zoom in [0.3, 3]: a random float (27 .. 300 hundredths, perturbed in the low bits), sometimes exactly 1
+      c.zoom[a] = rng.range(0, 6) == 0 ? 1.F : (float)((rng.range(30, 300) + rng.range(0, 999) / 1000.) / 100.);
+      if (c.zoom[a] > 3.F) c.zoom[a] = 3.F;
+      if (c.zoom[a] < 0.3F) c.zoom[a] = 0.3F;
+      c.off[a] = rng.range(0, 2) == 0 ? 0.F : rng.range(-12, 12) * c.vox[a] / 8.F;
+      // a box of constant value inside the image
+      ulo[a] = c.lo[a] + (len >= 3 ? rng.range(0, 1) : 0);
+      uhi[a] = c.hi[a] - (len >= 3 ? rng.range(0, 1) : 0);
+    }
+    if (two_d) {
+      c.zoom[0] = 1.F; c.off[0] = 0.F; c.zoom[1] = c.zoom[2]; c.vox[1] = c.vox[2];
+      c.lo[1] = c.lo[2]; c.hi[1] = c.hi[2]; ulo[1] = std::max(ulo[1], c.lo[1]); uhi[1] = std::min(uhi[1], c.hi[1]);
+      if (ulo[1] > uhi[1]) { ulo[1] = c.lo[1]; uhi[1] = c.hi[1]; }
+    }
+    for (int a = 0; a < 3; ++a) {
+      const int len = c.hi[a] - c.lo[a] + 1;
+      // enough voxels to cover the shifted image (mostly), sometimes fewer
+      const int need = (int)std::ceil(len * c.zoom[a] + 2 * std::fabs(c.off[a]) / (c.vox[a] / c.zoom[a])) + 1;
+      c.n[a] = std::max(1, rng.range(0, 4) == 0 ? need - rng.range(1, 4) : need + rng.range(0, 2));
+      c.n[a] = std::min(c.n[a], 30);
+    }
+    if (two_d) { c.n[0] = c.hi[0] - c.lo[0] + 1; c.n[1] = c.n[2]; }
+    c.opt = rng.range(0, 2);
+    c.two_d_ok = two_d;
+    Image in = make_image(c);
+    const int kind = rng.range(0, 2);                 // 0: box of constant value in random values, 1: box in zeros, 2: random, zero border
+    const float uval = rng.range(1, 255) / 16.F;
+    std::vector<long long> vals;
+    for_voxels(in, [&](int z, int y, int x) {
+      const bool inbox = z >= ulo[0] && z <= uhi[0] && y >= ulo[1] && y <= uhi[1] && x >= ulo[2] && x <= uhi[2];
+      float v;
+      if (kind == 2) v = inbox ? rng.range(0, 255) / 16.F : 0.F;
+      else if (inbox) v = uval;
+      else v = kind == 0 ? rng.range(0, 255) / 16.F : 0.F;
+      in[z][y][x] = v;
+      vals.push_back(vh::fx(v, 8));
+    });
+    {
+      vh::Json j("RIn");
+      std::vector<long long> org, vox, off, zf;
+      for (int a = 0; a < 3; ++a) { org.push_back(vh::fx(c.org[a], 10)); vox.push_back(vh::fx(c.vox[a], 10)); off.push_back(vh::fx(c.off[a], 10)); zf.push_back(vh::fx(c.zoom[a], 16)); }
+      j.num("id", run + 1).arr("lo", std::vector<int>(c.lo, c.lo + 3)).arr("hi", std::vector<int>(c.hi, c.hi + 3)).arr("org", org).arr("vox", vox).arr("off", off)
+          .arr("zf", zf).arr("n", std::vector<int>(c.n, c.n + 3)).num("opt", c.opt).boolean("twoD", two_d).arr("vals", vals)
+          .boolean("hasBox", kind != 2).arr("ulo", std::vector<int>(ulo, ulo + 3)).arr("uhi", std::vector<int>(uhi, uhi + 3)).num("uval", vh::fx(uval, 8));
+      const bool pos = in.sum() > 0.F;
+      j.boolean("pos", pos);
+      if (pos) {
+        const CartesianCoordinate3D<float> g = find_centre_of_gravity_in_mm(in);
+        j.arr("cog", std::vector<long long>{ vh::fx(g.z(), 10), vh::fx(g.y(), 10), vh::fx(g.x(), 10) });
+      }
+      tr.emit(j);
+    }
+    Image first;
+    bool have_first = false;
+    for (const char* call : CALLS) {
+      Image res;
+      bool applies = true;
+      std::string msg;
+      const bool err = vh::threw([&] { applies = run_variant(call, c, in, have_first ? &first : nullptr, res); }, &msg);
+      if (!applies) continue;
+      vh::Json j("ROut");
+      j.str("call", call).boolean("err", err);
+      if (err) { j.str("msg", msg); tr.emit(j); continue; }
+      if (!have_first) { first = res; have_first = true; }
+      BasicCoordinate<3, int> mn, mx;
+      res.get_regular_range(mn, mx);
+      std::vector<long long> org, vox, ov;
+      for (int a = 0; a < 3; ++a) { org.push_back(vh::fx(res.get_origin()[a + 1], 10)); vox.push_back(vh::fx(res.get_voxel_size()[a + 1], 10)); }
+      for_voxels(res, [&](int z, int y, int x) { ov.push_back(vh::fx(res[z][y][x], 8)); });
+      j.arr("lo", std::vector<int>{ mn[1], mn[2], mn[3] }).arr("hi", std::vector<int>{ mx[1], mx[2], mx[3] }).arr("org", org).arr("vox", vox).arr("vals", ov);
+      const bool pos = res.sum() > 0.F;
+      j.boolean("pos", pos);
+      if (pos) {
+        const CartesianCoordinate3D<float> g = find_centre_of_gravity_in_mm(res);
+        j.arr("cog", std::vector<long long>{ vh::fx(g.z(), 10), vh::fx(g.y(), 10), vh::fx(g.x(), 10) });
+      }
+      tr.emit(j);
+    }
+  }
+}
+
 int main(int argc, char** argv) {
   if (argc < 3) { fprintf(stderr, "usage: c15_rebin_zoom <mode> <out.ndjson> ...\n"); return 2; }
   vh::quiet();
@@ -328,6 +591,8 @@ int main(int argc, char** argv) {
   vh::Trace tr(argv[2]);
   vh::Rng rng(vh::seed_from_env() * 7919 + (mode == "ssrb" ? 1 : mode == "zoom" ? 2 : 3));
   if (mode == "ssrb") mode_ssrb(tr, atol(argv[3]), atoi(argv[4]), rng, argc > 5 ? argv[5] : "");
+  else if (mode == "zoom") mode_zoom(tr, atol(argv[3]), atoi(argv[4]), rng);
+  else if (mode == "zoomr") mode_zoomr(tr, atol(argv[3]), atoi(argv[4]), rng);
   else { fprintf(stderr, "unknown mode\n"); return 2; }
   return 0;
 }
